@@ -27,3 +27,8 @@ claim("C05", "static analysis: guard dominance + full decision-table extraction 
   "Decides on every path of gpbft/validator.go that acceptance and cache insertion are unreachable when any check fails; that the complete phase × round × bottom × partial × ticket × justification decision table (512 rows) and the relevance table (240 rows) equal the protocol tables; that the justification expectation table equals the spec and each of its guards (incl. round equality in both directions) gates aggregate acceptance; that the aggregate is checked against a strong quorum of the same committee over the payload with the expected key; and history independence: cache keys cover the whole message / the justification plus the very key verified, namespaces distinct, lookups read-only, progress never read under cached validation (C05.R1–R8). Structural necessary conditions; cryptographic soundness and races are not decided.",
   "AS2 cryptography sound; trusts go/types, go/ssa, checker/sccp.go and the spec tables in checker/c05.go.",
   "DESIGN.md §4 C05")
+
+claim("C08", "static analysis: linear normal forms with ceil/floor lemmas over the quorum predicates; dataflow shape of scaling; call-site provenance",
+  "Decides for all integer inputs (no enumeration) that IsStrongQuorum normalises to 3·part − 2·whole ≥ 0, hasWeakQuorum implies 3·part − whole ≥ 1, the division helper is a ceiling division by shape, CouldReachStrongQuorumFor is IsStrongQuorum(min(support + T − S [+ ⌊T/3⌋], T), T); that every call site takes part and whole from one power table; that no second threshold exists; and that scalePower is the arbitrary-precision ⌊65535·p/T⌋ under T ≥ p with all users passing the table's own total (C08.R1–R4).",
+  "Trusts the integer lemmas listed in the evidence, AS3 (Σ⌊M·pᵢ/Σp⌋ ≤ M), go/types, go/ssa, checker/lin.go and checker/c08.go.",
+  "DESIGN.md §4 C08")
